@@ -8,6 +8,8 @@ import (
 	"math"
 	"math/big"
 	"math/rand"
+	"reflect"
+	"strconv"
 	"strings"
 
 	"github.com/amzn/ion-go/ion"
@@ -17,6 +19,7 @@ import (
 	"verifh/model"
 	"verifh/refbin"
 	"verifh/refsym"
+	"verifh/reftext"
 )
 
 // NumCase is a replayable C13 case.
@@ -431,6 +434,145 @@ func c13Floats(c *Ctx) {
 		}
 	})
 	c.Obs("floats_checked", int64(len(fs)))
+	c13FloatLiterals(c)
+	c13GoIntegerKinds(c)
+}
+
+// c13GoIntegerKinds marshals the extreme values of every Go integer kind (also as named types and
+// struct fields): the Ion int written has to be that number.
+func c13GoIntegerKinds(c *Ctx) {
+	type namedUint uint
+	type namedInt64 int64
+	type holder struct {
+		U   uint      `ion:"u"`
+		P   uintptr   `ion:"p"`
+		N   namedUint `ion:"n"`
+		I   int       `ion:"i"`
+		U64 uint64    `ion:"u64"`
+	}
+	var vals []interface{}
+	for _, x := range []uint64{0, 1, 127, 128, 255, 256, 1<<31 - 1, 1 << 31, 1<<32 - 1, 1 << 32, 1<<63 - 1, 1 << 63, 1<<63 + 1, 1<<64 - 2, 1<<64 - 1} {
+		vals = append(vals, uint(x), uintptr(x), uint64(x), namedUint(x), holder{U: uint(x), P: uintptr(x), N: namedUint(x), I: int(int64(x)), U64: x})
+		if x <= math.MaxUint32 {
+			vals = append(vals, uint32(x))
+		}
+		if x <= math.MaxUint16 {
+			vals = append(vals, uint16(x))
+		}
+		if x <= math.MaxUint8 {
+			vals = append(vals, uint8(x))
+		}
+	}
+	for _, x := range []int64{math.MinInt64, math.MinInt64 + 1, -(1 << 31) - 1, -(1 << 31), -129, -128, -1, 0, 127, 128, 1<<31 - 1, 1 << 31, math.MaxInt64 - 1, math.MaxInt64} {
+		vals = append(vals, int(x), x, namedInt64(x))
+		if x >= math.MinInt32 && x <= math.MaxInt32 {
+			vals = append(vals, int32(x))
+		}
+		if x >= math.MinInt16 && x <= math.MaxInt16 {
+			vals = append(vals, int16(x))
+		}
+		if x >= math.MinInt8 && x <= math.MaxInt8 {
+			vals = append(vals, int8(x))
+		}
+	}
+	for i, v := range vals {
+		rv := reflect.ValueOf(v)
+		want, ok := imageOf(rv, "", true)
+		if !ok {
+			continue
+		}
+		for _, bin := range []bool{false, true} {
+			c.Eval(1)
+			c.NonTrivial(fmt.Sprintf("gokind|%d|%v", i, bin))
+			var out []byte
+			var err error
+			var got []*model.Value
+			if bin {
+				if out, err = ion.MarshalBinary(v); err == nil {
+					got, err = refbin.Decode(out, nil)
+				}
+			} else {
+				if out, err = ion.MarshalText(v); err == nil {
+					got, err = reftext.Parse(string(out), nil)
+				}
+			}
+			verdict := ""
+			if err != nil {
+				verdict = "Marshal/decode failed: " + err.Error()
+			} else if d := model.DiffOpt([]*model.Value{want}, got, model.EqOpts{UnorderedStructs: true}); d != "" {
+				verdict = "the Ion written is not the number: " + d
+			}
+			if verdict != "" {
+				numViolate(c, "go-integer-kinds", fmt.Sprintf("Marshal(%T)", v), out, fmt.Sprintf("%v", v), verdict)
+			}
+		}
+	}
+}
+
+// c13FloatLiterals reads decimal float literals of 1..19 significant digits over the whole exponent
+// range through the text reader: the value has to be the correctly rounded binary64 (oracle:
+// strconv.ParseFloat, a correctly-rounding implementation that is not part of the code under test).
+func c13FloatLiterals(c *Ctx) {
+	n := c.N(60000, 3000000)
+	c.Parallel(n, func(w, i int) {
+		r := rand.New(rand.NewSource(c.Seed*13_000_027 + int64(i)))
+		nd := 1 + r.Intn(19)
+		if i%4 == 0 {
+			nd = 5 + r.Intn(5) // short literals: fast paths for few digits
+		}
+		var ds strings.Builder
+		ds.WriteByte(byte('1' + r.Intn(9)))
+		for j := 1; j < nd; j++ {
+			ds.WriteByte(byte('0' + r.Intn(10)))
+		}
+		digits := ds.String()
+		var exp int
+		switch i % 5 {
+		case 0:
+			exp = r.Intn(61) - 30
+		case 1:
+			exp = 15 + r.Intn(30) // where one exact power of ten stops being enough
+		case 2:
+			exp = -(300 + r.Intn(45)) // subnormals and underflow
+		case 3:
+			exp = 280 + r.Intn(29) - nd // towards overflow
+		default:
+			exp = r.Intn(701) - 350
+		}
+		point := r.Intn(nd + 1)
+		lit := digits[:point]
+		if point == 0 {
+			lit = "0"
+		}
+		if point < nd {
+			lit += "." + digits[point:]
+		}
+		sign := ""
+		if r.Intn(3) == 0 {
+			sign = "-"
+		}
+		e := exp
+		lit = sign + lit + []string{"e", "E"}[r.Intn(2)] + []string{"", "+"}[r.Intn(2)*b2i(e >= 0)] + fmt.Sprint(e)
+		want, err := strconv.ParseFloat(lit, 64)
+		if err != nil || math.IsInf(want, 0) {
+			return // out of range: not a finite binary64
+		}
+		c.Eval(1)
+		if nd >= 5 {
+			c.NonTrivial("flit|" + lit)
+		}
+		obs := ionx.ReadAll([]byte(lit + " "))
+		verdict := ""
+		switch {
+		case obs.Failed() || len(obs.Vals) != 1 || obs.Vals[0].Kind != model.Float:
+			verdict = "not read as one float: " + obs.ErrString() + " " + model.FmtAll(obs.Vals)
+		case obs.Vals[0].F != math.Float64bits(want):
+			verdict = fmt.Sprintf("read as %016x (%v), the correctly rounded value is %016x (%v)", obs.Vals[0].F, math.Float64frombits(obs.Vals[0].F), math.Float64bits(want), want)
+		}
+		if verdict != "" {
+			numViolate(c, "float-literal", "text float literal", []byte(lit), lit, verdict)
+		}
+	})
 }
 
 func c13Magnitudes(c *Ctx) {
